@@ -3,6 +3,8 @@
 package gomatrixserverlib
 
 import (
+	"crypto/sha256"
+	"encoding/base64"
 	"fmt"
 	"sort"
 	"strings"
@@ -416,6 +418,12 @@ func c08CheckHistory(ctx *vfCtx, h c08History) {
 			createID = raEventID(h.Version, t)
 		}
 	}
+	// one checker object for the whole history, as state resolution keeps one: its provider follows the
+	// room's state, every event is put to it twice (re-authorisation puts events to it again), and
+	// whatever IT accepts is an accepted power-levels event too
+	var reProv *AuthEvents
+	var reCtx *allowerContext
+	reusedAlive := true
 	for i, s := range h.Steps {
 		st := raBuildState(h.Version, trees)
 		if raUnjudged(st) != "" {
@@ -449,13 +457,47 @@ func c08CheckHistory(ctx *vfCtx, h c08History) {
 		}) {
 			return
 		}
+		if reusedAlive {
+			var r1, r2 error
+			if vfCatch(ctx, "C08/reused-checker", func() {
+				if reProv == nil {
+					reProv, _ = NewAuthEvents(pdus)
+					reCtx = newAllowerContext(reProv, vfUserIDForSender, ev.RoomID())
+				}
+				reCtx.update(reProv)
+				r1 = reCtx.allowed(ev)
+				reCtx.update(reProv)
+				r2 = reCtx.allowed(ev)
+			}) {
+				return
+			}
+			if aerr != nil && (r1 == nil || r2 == nil) {
+				ctx.Class("reused-checker-accepts-what-a-fresh-check-refuses")
+				c08Invariant(ctx, h.Version, st, s.Sender, content, band+"/by-the-reused-checker")
+				if ctx.Failed() {
+					return
+				}
+				reusedAlive = false // the two have parted ways (C09's matter): nothing more to learn here
+			}
+		}
 		if aerr != nil {
+			// refused by Allowed: state resolution, offered the event as the other candidate for the room's
+			// power levels, must not pick it either if it breaks the invariant
+			if vtraits[h.Version].StateRes >= 2 && st.HasPL {
+				c08ResolveLeg(ctx, h.Version, trees, pdus, st, e, s.Sender, content, band)
+				if ctx.Failed() {
+					return
+				}
+			}
 			continue
 		}
 		accepted++
 		c08Invariant(ctx, h.Version, st, s.Sender, content, band)
 		if ctx.Failed() {
 			return
+		}
+		if reProv != nil && reusedAlive {
+			_ = reProv.AddEvent(ev)
 		}
 		// the accepted event becomes the room's power levels
 		var next []jv
@@ -469,6 +511,53 @@ func c08CheckHistory(ctx *vfCtx, h c08History) {
 	ctx.Class(fmt.Sprintf("accepted-steps/%d", accepted))
 	if accepted >= 2 {
 		ctx.NonTrivial()
+	}
+}
+
+// c08ResolveLeg offers a power-levels event that Allowed refuses to state resolution as the second of two
+// candidates (state set A = the current state, state set B = the same with the event in place of the
+// current power levels; the event cites the create event, the current power levels and its sender's
+// membership, so it is judged against the levels the invariant is computed from). If resolution
+// returns it as the room's power levels it has been accepted, and the invariant must hold.
+func c08ResolveLeg(ctx *vfCtx, version string, trees []jv, pdus []PDU, st raState, e raEv, sender string, content jv, band string) {
+	var auth []string
+	var setA, setB []PDU
+	for i, t := range trees {
+		typ := evStr(t, "type")
+		sk, _ := raStr(t, "state_key")
+		switch {
+		case typ == "m.room.create":
+			if !vtraits[version].Creators {
+				auth = append(auth, pdus[i].EventID())
+			}
+		case typ == "m.room.power_levels", typ == "m.room.member" && sk == sender:
+			// (the ID the library gives the parsed event: below version 6 a level written 50.0 is hashed as 50)
+			auth = append(auth, pdus[i].EventID())
+		}
+		setA = append(setA, pdus[i])
+		if typ != "m.room.power_levels" {
+			setB = append(setB, pdus[i])
+		}
+	}
+	e.Auth = auth
+	cand, err := raParsePDU(version, raJSON(version, e))
+	if err != nil {
+		return
+	}
+	setB = append(setB, cand)
+	var got []PDU
+	var rerr error
+	if vfCatch(ctx, "C08/resolve", func() {
+		got, rerr = ResolveConflictsNew(RoomVersion(version), [][]PDU{setA, setB}, append(append([]PDU(nil), pdus...), cand), vfUserIDForSender, func(string) bool { return false })
+	}) || rerr != nil {
+		return
+	}
+	ctx.Class("refused-event-offered-to-state-resolution")
+	for _, g := range got {
+		if g.Type() == "m.room.power_levels" && g.StateKeyEquals("") && g.EventID() == cand.EventID() {
+			ctx.Class("state-resolution-picks-what-a-fresh-check-refuses")
+			c08Invariant(ctx, version, st, sender, content, band+"/by-state-resolution")
+		}
 	}
 }
 
@@ -777,4 +866,241 @@ func init() {
 	vfEnum("C07/first-power-levels", rule+" (the same cases judged against R-auth in both directions)", 2, 1, 4, c08EnumFirstPL, c07Check)
 	vfEnum("C08/edit-product", rule, 6, 1, 8, c08EnumEdits, c08Check)
 	vfEnum("C07/power-level-edit-product", rule+" (judged against R-auth in both directions)", 6, 1, 8, c08EnumEdits, c07Check)
+}
+
+// ---------------------------------------------------------------------------------------------
+// C08/repeated-sections — power-levels events as another server can send them (the content text
+// byte for byte, through NewEventFromUntrustedJSON) whose content names a section or a level TWICE,
+// the second time possibly under another JSON spelling of the same name (\uXXXX escapes), with a level
+// that is not an integer in one of the two. JSON does not say which of two equal names counts and the
+// decoders in use differ (first / last / merged); the statement does not care either: an ACCEPTED
+// power-levels event of a version with integer-only levels contains no other kind of level - under
+// any member of its content, however spelled. Refusing the event when it is parsed is the usual sound
+// outcome.
+
+type c08RepCase struct {
+	Version string    `json:"version"`
+	Content string    `json:"content"` // the content object as text
+	Shape   string    `json:"shape"`
+	Auth    []vfBytes `json:"auth"`
+	Proto   vfBytes   `json:"proto"` // the event with a placeholder content
+}
+
+const c08RepPlaceholder = `{"c08-placeholder":1}`
+
+func c08RepSpell(name, how string) string {
+	esc := func(i int, upper bool) string {
+		h := fmt.Sprintf("%04x", name[i])
+		if upper {
+			h = strings.ToUpper(h)
+		}
+		return name[:i] + `\u` + h + name[i+1:]
+	}
+	switch how {
+	case "escaped-first":
+		return esc(0, false)
+	case "escaped-last":
+		return esc(len(name)-1, true)
+	case "escaped-all":
+		out := ""
+		for i := 0; i < len(name); i++ {
+			out += fmt.Sprintf(`\u%04x`, name[i])
+		}
+		return out
+	}
+	return name
+}
+
+func c08EnumRepeated(size, shard, nshards int, emit func(c08RepCase)) {
+	odds := []string{"null", `"50"`, "50.5", "true", `{}`}
+	idx := 0
+	for _, version := range vfVersions {
+		users := map[string]int64{c07Bob: 50}
+		creatorEntry := ""
+		if !vtraits[version].Creators {
+			users[c07Creator] = 100
+			creatorEntry = jplain(jstr(c07Creator)) + `:100,`
+		}
+		r := c07Room{Version: version, HasPL: true, JoinRule: "public", Members: map[string]string{c07Creator: "join", c07Bob: "join"}}
+		r.PL = c07PLContent(users, map[string]int64{"ban": 50}, map[string]int64{"m.room.topic": 50}, map[string]int64{"room": 50})
+		b := c07Build(r)
+		e := raEv{Type: "m.room.power_levels", Sender: c07Creator, StateKey: raSK(""), Prev: []string{"$p:a.example"}}
+		if vtraits[version].Format == 2 {
+			e.Prev = []string{"$" + strings.Repeat("P", 43)}
+		}
+		ph, _, _ := jparse([]byte(c08RepPlaceholder))
+		e.Content = ph
+		base := c07Finish(version, b, e)
+		usersText := `"users":{` + creatorEntry + jplain(jstr(c07Bob)) + `:50}`
+		// controls: the same machinery on content that repeats nothing (all integers: accepted; one null: the rules' matter)
+		idx++
+		if idx%nshards == shard {
+			emit(c08RepCase{Version: version, Content: `{"ban":50,"kick":50,` + usersText + `}`, Auth: base.Auth, Proto: base.Event, Shape: "control/no-repeat"})
+			emit(c08RepCase{Version: version, Content: `{"ban":null,"kick":50,` + usersText + `}`, Auth: base.Auth, Proto: base.Event, Shape: "control/no-repeat-null-level"})
+		}
+		for _, key := range []string{"users", "events", "notifications", "ban", "users_default"} {
+			for _, odd := range odds {
+				for _, how := range []string{"plain", "escaped-first", "escaped-last", "escaped-all"} {
+					for _, oddFirst := range []bool{true, false} {
+						for _, escapedFirst := range []bool{false, true} {
+							idx++
+							if idx%nshards != shard {
+								continue
+							}
+							var good, bad string
+							switch key {
+							case "users":
+								good = `{` + creatorEntry + jplain(jstr(c07Bob)) + `:50}`
+								bad = `{` + creatorEntry + jplain(jstr(c07Bob)) + `:50,"@eve:e.example":` + odd + `}`
+							case "events":
+								good, bad = `{"m.room.topic":50}`, `{"m.room.topic":50,"m.room.name":`+odd+`}`
+							case "notifications":
+								good, bad = `{"room":50}`, `{"room":50,"other":`+odd+`}`
+							default:
+								good, bad = "50", odd
+							}
+							n1, n2 := `"`+key+`"`, `"`+c08RepSpell(key, how)+`"`
+							if escapedFirst {
+								n1, n2 = n2, n1
+							}
+							v1, v2 := good, bad
+							if oddFirst {
+								v1, v2 = bad, good
+							}
+							parts := []string{n1 + ":" + v1, `"kick":50`, n2 + ":" + v2}
+							if key != "users" {
+								parts = append(parts, usersText)
+							}
+							emit(c08RepCase{Version: version, Content: "{" + strings.Join(parts, ",") + "}", Auth: base.Auth, Proto: base.Event,
+								Shape: fmt.Sprintf("%s/%s/odd-%s", key, how, map[bool]string{true: "first", false: "second"}[oddFirst])})
+						}
+					}
+				}
+			}
+		}
+	}
+}
+
+// c08RepOddLevel walks the content as text and names the first level, under any member spelled like a
+// section or a named level, that is not an integer literal.
+func c08RepOddLevel(content jv) string {
+	if content.K != 'o' {
+		return ""
+	}
+	named := map[string]bool{}
+	for _, n := range raNamed {
+		named[n] = true
+	}
+	for _, m := range content.O {
+		switch {
+		case named[m.Key]:
+			if _, ok := c08Int(m.Val); !ok {
+				return m.Key + " = " + jplain(m.Val)
+			}
+		case m.Key == "users" || m.Key == "events" || m.Key == "notifications":
+			if m.Val.K != 'o' {
+				continue
+			}
+			for _, ent := range m.Val.O {
+				if _, ok := c08Int(ent.Val); !ok {
+					return m.Key + "[" + ent.Key + "] = " + jplain(ent.Val)
+				}
+			}
+		}
+	}
+	return ""
+}
+
+func c08RepCheck(ctx *vfCtx, c c08RepCase) {
+	impl, err := GetRoomVersion(RoomVersion(c.Version))
+	if err != nil {
+		ctx.Unjudged("unknown room version")
+		return
+	}
+	var pdus []PDU
+	for _, a := range c.Auth {
+		t, err := evTree(a)
+		if err != nil {
+			ctx.Unjudged("generator: malformed auth event")
+			return
+		}
+		p, err := raParsePDU(c.Version, t)
+		if err != nil {
+			ctx.Unjudged("generator: auth event does not parse")
+			return
+		}
+		pdus = append(pdus, p)
+	}
+	pt, err := evTree(c.Proto)
+	if err != nil {
+		ctx.Unjudged("generator: malformed event")
+		return
+	}
+	body := jplain(pt.without("hashes", "signatures", "unsigned"))
+	if strings.Count(body, c08RepPlaceholder) != 1 {
+		ctx.Unjudged("generator: placeholder not found")
+		return
+	}
+	body = strings.Replace(body, c08RepPlaceholder, c.Content, 1)
+	var canon []byte
+	if vfCatch(ctx, "C08/repeated-sections/canonical", func() { canon, err = CanonicalJSON([]byte(body)) }) {
+		return
+	}
+	if err != nil {
+		ctx.Unjudged("the library cannot canonicalise the text: " + err.Error())
+		return
+	}
+	sum := sha256.Sum256(canon)
+	wire := []byte(`{"hashes":{"sha256":"` + base64.RawStdEncoding.EncodeToString(sum[:]) + `"},` + body[1:])
+	ctx.Class("shape/" + c.Shape)
+	ctx.NonTrivial()
+	var ev PDU
+	if vfCatch(ctx, "C08/repeated-sections/parse", func() { ev, err = impl.NewEventFromUntrustedJSON(wire) }) {
+		return
+	}
+	if err != nil {
+		ctx.Class("outcome/refused-when-parsed")
+		if c.Shape == "control/no-repeat" {
+			ctx.Fail("C08/repeated-sections/ordinary-event-refused", "version %s: an ordinary power-levels event (%s) is refused when parsed: %v", c.Version, c.Content, err)
+		}
+		return
+	}
+	if ev.Redacted() {
+		ctx.Class("parsed-as-redacted")
+	}
+	var aerr error
+	if vfCatch(ctx, "C08/repeated-sections/allowed", func() {
+		provider, perr := NewAuthEvents(pdus)
+		if perr != nil {
+			aerr = perr
+			return
+		}
+		aerr = Allowed(ev, provider, vfUserIDForSender)
+	}) {
+		return
+	}
+	if aerr != nil {
+		ctx.Class("outcome/refused-by-the-rules")
+		if c.Shape == "control/no-repeat" {
+			ctx.Fail("C08/repeated-sections/ordinary-event-refused", "version %s: an ordinary power-levels event of the creator (%s) is refused: %v", c.Version, c.Content, aerr)
+		}
+		return
+	}
+	ctx.Class("outcome/accepted")
+	if !vtraits[c.Version].IntegerPL {
+		ctx.Unjudged("accepted in a room version whose levels need not be integer literals")
+		return
+	}
+	kept, _, perr := jparse(ev.Content())
+	if perr != nil {
+		ctx.Unjudged("content of the accepted event is not readable")
+		return
+	}
+	if odd := c08RepOddLevel(kept); odd != "" {
+		ctx.Fail("C08/accepted-non-integer-level/behind-a-repeated-key/"+c07Band(c.Version), "version %s: power-levels event accepted (parsed as untrusted input, then Allowed) although its content has the level %s; content as sent %s, as kept %s", c.Version, odd, c.Content, ev.Content())
+	}
+}
+
+func init() {
+	vfEnum("C08/repeated-sections", "every case: a power-levels event by the room's creator whose content names a section (users / events / notifications) or a named level twice - the second time plainly or under a \\uXXXX spelling of the same name - with a non-integer level in one of the two occurrences; sent through the untrusted parser, then Allowed. distinct = distinct Case JSON", 1, 1, 4, c08EnumRepeated, c08RepCheck)
 }
